@@ -1,7 +1,7 @@
 (* C10 -- Signals reach only the live child as requested, never after it was reaped.
    Only statements here; proofs live in Proofs/PopenProofs.v. *)
 From Coq Require Import List NArith Bool.
-Require Import SP.Params SP.Lib.Status SP.Lib.PopenSM SP.Proofs.PopenProofs.
+Require Import SP.Params SP.Lib.Status SP.Lib.PopenSM SP.Proofs.PopenProofs SP.Kernel.JobCtl SP.Proofs.JobCtlProofs.
 Import ListNotations.
 Open Scope N_scope.
 
@@ -52,6 +52,15 @@ Theorem C10_no_signal_after_own_reap :
     Forall (fun tv => fst tv = []) h2 /\ w' = w2.
 Proof. exact no_signal_after_own_reap. Qed.
 Print Assumptions C10_no_signal_after_own_reap.
+
+(* a stopped child is alive and unreaped: the handle stays Running for it (a stop is reported only to a waitpid
+   with WUNTRACED, Kernel/JobCtl.v), so by C10_signal_exactly_one every signal --
+   SIGCONT included -- still reaches it *)
+Theorem C10_stop_not_observed_by_library : forall w c dur over w' same raw,
+  xserve w c dur over = XRes w' (RWaitPid same raw) -> pr (xbase w') = PAlive ->
+  exists nh opts sig, c = XWaitOpts nh opts /\ N.land opts WUNTRACED <> 0%N /\ xstopped w = Some sig /\ raw = stop_status sig.
+Proof. exact alive_status_needs_untraced. Qed.
+Print Assumptions C10_stop_not_observed_by_library.
 
 Example C10_nonvacuous :
   let w0 := {| pr := PAlive; exit_at := None; reap_at := None; dies_on_signal := true; pnow := 0; kills := [] |} in
